@@ -201,6 +201,15 @@ def cases(draw, switches):
                 pos = 0
                 if len(reads) > 6:
                     break
+        # a READ list in which a scalar is both the subscript of an earlier target and a later target: READ V(I9),I9 stores into V(old I9)
+        cand = [n for n, k, b, dm in arrays if k == "arr" and len(b) == 1 and b[0] >= 2]
+        if cand and pos >= len(items_all) and d(st.integers(0, 2)) == 0:
+            nm_ = d(st.sampled_from(cand))
+            extra_items = [["n", "55", 55], ["n", "1", 1]] + ([["e"]] if d(st.booleans()) else [])
+            data_lines.append(extra_items)
+            tg_ = [["arr", nm_, [["var", "I9"]]], ["var", "I9"]] + ([["var", "B"]] if len(extra_items) == 3 else [])
+            reads.append([["read", tg_], ["print", [["e", ["arr", nm_, [N(2)]]], ["s", ";"], ["e", ["arr", nm_, [N(1)]]], ["s", ";"], ["e", ["var", "I9"]]]]])
+            feats.add("read_target_subscript_is_a_later_target")
         prog_lines += reads
     # ---------------------------------------------------------------- PRINT
     def pitem():
